@@ -516,6 +516,15 @@ func (l *locksPlugin) onSkip(in *Interp, fs *FState, site ssa.Instruction, calle
 
 func (l *locksPlugin) OnStore(in *Interp, fs *FState, instr ssa.Instruction, c *Cell, v Value) {
 	l.recordAccess(in, fs, instr, c, true)
+	// `*f = File{}` (end of File.Close) replaces the embedded lock object by a fresh, idle one
+	if _, isZero := v.(zeroStruct); isZero && c.parent == nil {
+		if n, ok := c.typ.(*types.Named); ok && n.Obj() == l.voc.named["File"].Obj() {
+			p := lp(fs)
+			for _, k := range []string{"reserved", "pending", "exclusive", "shared", "mu"} {
+				delete(p.n, k)
+			}
+		}
+	}
 	if l.pqLevel && c.fvar != nil && c.lazy {
 		if pv, ok := v.(PtrV); ok && pv.sym != 0 {
 			for _, t := range lp(fs).pqtx {
